@@ -24,6 +24,18 @@ template <class T, glm::qualifier Q, int L> static void reg_geom() {
 		       long double d = 0; for (int i = 0; i < L; ++i) d += (long double)SA<T>::get(in[i]) * (long double)SA<T>::get(in[L + i]);
 		       long double eta = (long double)SA<T>::get(in[2 * L]); long double k = 1 - eta * eta * (1 - d * d);
 		       return (k < 0 ? -k : k) / (1 + eta * eta); });
+	// refract's branch decision on inputs where it cannot legitimately differ: N is a signed coordinate axis, so dot(N, I) = +-I[axis] is
+	// exact in any summation order, and k = 1 - eta^2 (1 - d^2) is the same sequence of correctly rounded operations in every build; eta is
+	// placed j ulps (|j| <= 20) from 1/sqrt(1 - d^2), i.e. k within a few ulps of 0 on either side. A contracted or reassociated k flips
+	// the total-internal-reflection branch (zero vector against a unit-size vector) or moves sqrt(k) by ~1e-4.
+	add_op(nmv<T, Q, L>("refract_axis_threshold"), spec("@U# iW1 iK1", tl, L), o, 'U', 'R', 16,
+	       FN { V iv = LV::ld(in); int axis = (int)((unsigned)in[L].i % (unsigned)L); bool neg = (((unsigned)in[L].i / (unsigned)L) & 1u) != 0; int j = in[L + 1].i;
+		       V n(T(0)); n[axis] = neg ? T(-1) : T(1);
+		       double d = (double)iv[axis], om = 1.0 - d * d;
+		       T eta = om > 1e-6 ? (T)(1.0 / std::sqrt(om)) : T(1);
+		       for (int s = 0; s < (j < 0 ? -j : j); ++s) eta = std::nextafter(eta, j < 0 ? T(0) : std::numeric_limits<T>::infinity());
+		       ST(out, glm::refract(iv, n, eta)); },
+	       SC { int axis = (int)((unsigned)in[L].i % (unsigned)L); double d = (double)SA<T>::get(in[axis]); double om = 1.0 - d * d; long double eta = om > 1e-6 ? 1.0L / sqrtl((long double)om) : 1.0L; return 2.0L + 2 * eta; });
 }
 // vec3 values whose invisible 4th SIMD lane holds junk (inf / NaN / a large number): an aligned vec3 is stored in a 4-lane register and
 // lane-wise operators, truncating constructors and cross() leave arbitrary data there; no visible result may depend on it.
